@@ -28,15 +28,18 @@ def rfindIdx (p : Nat → Bool) (l : List Nat) : Option Nat :=
 
 def countUs (l : List Nat) : Nat := (l.filter (· == 95)).length
 
+/-- the optional sign (`-` / `+`) at the start of a literal or of a decimal exponent -/
+def stripSignF : List Nat → Bool × List Nat
+  | 45 :: r => (true, r)
+  | 43 :: r => (false, r)
+  | r => (false, r)
+
 /-- `str::parse::<isize>()`: optional sign, at least one ASCII digit, no overflow.
     The caller maps `Empty` to `NoDigits` and every other error to `InvalidDigit`. -/
 def parseIsize (bits : Nat) (s : List Nat) : Except ParseError Int :=
   if s = [] then .error .noDigits
   else
-    let sb : Bool × List Nat := match s with
-      | 45 :: r => (true, r)
-      | 43 :: r => (false, r)
-      | r => (false, r)
+    let sb := stripSignF s
     if sb.2 = [] then .error .invalidDigit
     else if sb.2.all (fun c => 48 ≤ c && c ≤ 57) then
       let v : Int := (ofDigits 10 (sb.2.map (· - 48)) : Nat)
@@ -60,12 +63,6 @@ def isScaleMarker (B : Nat) (hasPrefix : Bool) (c : Nat) : Bool :=
   else if B = 8 then c == 111 || c == 79 || c == 64
   else if B = 16 then c == 104 || c == 72 || c == 64
   else c == 64
-
-/-- the optional sign at the start of the literal -/
-def stripSignF : List Nat → Bool × List Nat
-  | 45 :: r => (true, r)
-  | 43 :: r => (false, r)
-  | r => (false, r)
 
 /-- `src.starts_with("0x") || src.starts_with("0X")` -/
 def hasHexPrefix (src : List Nat) : Bool := src.take 2 == [48, 120] || src.take 2 == [48, 88]
@@ -208,6 +205,29 @@ def parseFloatSpec (B : Nat) (src0 : List Nat) : Except ParseError (FRepr × Nat
             let e : Int := if fv = 0 then scale else scale - fd
             let s : Int := if sb.1 then -(mag : Int) else (mag : Int)
             .ok (FRepr.new B s e, (di.length + df.length) * k)
+
+/-- text of a digit string -/
+def chars (up : Bool) (ds : List Nat) : List Nat := ds.map (digitChar up)
+
+def signChars : Option Bool → List Nat
+  | none => []
+  | some true => [45]
+  | some false => [43]
+
+def fracChars (up : Bool) : Option (List Nat) → List Nat
+  | none => []
+  | some df => 46 :: chars up df
+
+def scaleChars : Option Int → List Nat
+  | none => []
+  | some z => 64 :: printSpecInt 10 false z
+
+/-- a literal of the documented grammar in its plain form (no `_`, no hexadecimal prefix): optional
+    sign (`some true` = `-`, `some false` = `+`), integer digits, optional `.` + fractional digits,
+    optional `@` + signed decimal exponent (the marker every base accepts) -/
+def renderLiteral (up : Bool) (sign : Option Bool) (di : List Nat) (frac : Option (List Nat))
+    (scale : Option Int) : List Nat :=
+  signChars sign ++ ((chars up di ++ fracChars up frac) ++ scaleChars scale)
 
 -- ---------------------------------------------------------------- Display (`fmt_round`)
 
